@@ -78,8 +78,8 @@ Definition r_mismatches (l : list rcase) : list N := mismatches_from r_agrees 0 
 Definition r_model (c : rcase) : list ans :=
   match c with (ops, _, lg) => snd (r_memo_run (mkM lg []) ops) end.
 
-(* LookupOptions.String(): observed text vs options_key *)
-Definition lo_agrees (p : lopts * str) : bool := str_eqb (options_key (fst p)) (snd p).
+(* LookupOptions.String(): observed text vs options_key; and the renderings are well formed (domain of C19_offset) *)
+Definition lo_agrees (p : lopts * str) : bool := str_eqb (options_key (fst p)) (snd p) && lo_wf (fst p).
 Definition lo_mismatches (l : list (lopts * str)) : list N := mismatches_from lo_agrees 0 l.
 
 (* ---------------------------------------------------------------- (2) tiny store *)
